@@ -1,4 +1,79 @@
-(* props/C09.v — C09: rewriting shapes and path data never changes the curve. *)
-From Coq Require Import ZArith Reals Lra List Bool String.
-From Pico Require Import Num G_geom G_meta G_types Walk PathSem.
+(* props/C09.v — C09: rewriting shapes and path data never changes the curve they describe.
+   Paths are exploded command lists; their meaning is spec/PathSem.v (SVG 1.1 §8.3).  The
+   callbacks, _next_pos and the index tables are regenerated from svg_types.py / svg_meta.py on
+   every run; the walk loop is model/Walk.v (correspondence-checked).
+
+   PARTIAL with respect to the property text: proved for command lists of any length —
+   explicit_lines, expand_shorthand (reflection only after a curve of the same family),
+   absolute / absolute_moveto / relative (exact, for paths without 1e-9 near misses of the subpath
+   start: the code snaps those), move, the target forms, and the rounding bound.  Not proved here
+   (correspondence + spec judge on every run): subpaths() splitting, the arcs_to_cubics step of
+   as_cmd_seq (its numerics are C12's theorems), the basic-shape outlines, and the size of the
+   drift when a 1e-9 snap does fire. *)
+From Coq Require Import ZArith Reals Lra List Bool Ascii String.
+From Pico Require Import Num PyStr G_geom G_meta G_types Walk PathSem E3_walk E3_rewrites E3_shorthand E3_forms.
 Import ListNotations.
+Local Open Scope char_scope.
+
+(* the code's position bookkeeping is the standard's, for each of the 20 commands *)
+Theorem C09_walk_tracks_current_point (i : ist) (c : cmdR) :
+  wf_cmd c ->
+  track (i_cur i) (i_start i) c =
+  (i_cur (fst (icmd i (fst c) (snd c))), i_start (fst (icmd i (fst c) (snd c)))).
+Proof. exact (emit_tracks i c). Qed.
+
+Theorem C09_explicit_lines (p : pathR) :
+  wf_path p -> interpR (explicit_lines (N:=ROps) p) = interpR p.
+Proof. exact (explicit_lines_preserves p). Qed.
+
+Theorem C09_expand_shorthand (p : pathR) :
+  wf_path p -> interpR (expand_shorthand (N:=ROps) p) = interpR p.
+Proof. exact (expand_shorthand_preserves p). Qed.
+
+Theorem C09_absolute (p : pathR) :
+  wf_path p -> pre_all (pre_nosnap (_relative_to_absolute ROps)) true istate0 p ->
+  interpR (absolute (N:=ROps) p) = interpR p.
+Proof. exact (absolute_preserves p). Qed.
+
+Theorem C09_absolute_moveto (p : pathR) :
+  wf_path p -> pre_all (pre_nosnap (_relative_to_absolute_moveto ROps)) true istate0 p ->
+  interpR (absolute_moveto (N:=ROps) p) = interpR p.
+Proof. exact (absolute_moveto_preserves p). Qed.
+
+Theorem C09_relative (p : pathR) :
+  wf_path p -> pre_all (pre_nosnap (_absolute_to_relative ROps)) true istate0 p ->
+  interpR (relative (N:=ROps) p) = interpR p.
+Proof. exact (relative_preserves p). Qed.
+
+Theorem C09_move (dx dy : R) (p : pathR) :
+  wf_path p -> (match p with (c, _) :: _ => c = "M" \/ c = "m" | [] => True end) ->
+  interpR (move (N:=ROps) dx dy p) = map (shift_seg dx dy) (interpR p).
+Proof. exact (move_shifts dx dy p). Qed.
+
+(* target forms *)
+Theorem C09_no_lowercase_after_absolute (p : pathR) : Forall is_abs_cmd (absolute (N:=ROps) p).
+Proof. exact (absolute_form p). Qed.
+Theorem C09_no_HV_after_explicit_lines (p : pathR) : Forall not_hv (explicit_lines (N:=ROps) p).
+Proof. exact (explicit_lines_form p). Qed.
+Theorem C09_no_ST_after_expand_shorthand (p : pathR) :
+  Forall (fun c => In (fst c) letters) p -> Forall not_st (expand_shorthand (N:=ROps) p).
+Proof. exact (expand_shorthand_form p). Qed.
+
+(* rounding to n digits moves no coordinate by more than half a unit in the last place *)
+Theorem C09_rounding (nd : Z) (p : pathR) :
+  Forall2 (fun c c' => fst c = fst c' /\
+                       Forall2 (fun x y => Rabs (y - x) <= / Rpow10 nd / 2)%R (snd c) (snd c'))
+          p (round_path (N:=ROps) nd p).
+Proof. exact (round_path_close nd p). Qed.
+
+(* non-vacuity: a concrete path with relative commands, a shorthand after a curve of the other
+   family and a closepath followed by drawing is well formed *)
+Example C09_nonvacuous :
+  wf_path [("M", [1; 2]); ("q", [1; 2; 3; 0]); ("S", [5; 5; 6; 0]); ("z", []); ("l", [1; 1])]%R.
+Proof. repeat constructor; cbn; tauto. Qed.
+
+(* one traversal for the axioms of the whole property file *)
+Definition C09_all := (C09_walk_tracks_current_point, C09_explicit_lines, C09_expand_shorthand, C09_absolute,
+  C09_absolute_moveto, C09_relative, C09_move, C09_no_lowercase_after_absolute, C09_no_HV_after_explicit_lines,
+  C09_no_ST_after_expand_shorthand, C09_rounding).
+Print Assumptions C09_all.
